@@ -2,6 +2,7 @@
 
 Note: functions with self as first arguments are used as DimArray methods
 """
+import copy
 import numpy as np
 from collections import OrderedDict
 import functools
@@ -539,6 +540,9 @@ def reshape(self, *newdims, **kwargs):
 
     # First unflatten the array to compare with flattened newdims
     o = self.unflatten()
+
+    # the axes are renamed in place below: work on copies, never on the operand's own Axis objects
+    o = o._constructor(o.values, [copy.copy(ax) for ax in o.axes], **o.attrs)
 
     # Temporarily replace "," by ";" in any dimension with is NOT a flattened axis, and flatten all dimensions apart from that
     newdims_renamed = []
